@@ -873,6 +873,11 @@ def _parse_schema(
             # we need to detect collisions and use the original raw schema name as a fallback.
             registration_key = schema_ir.name if schema_ir.name else schema_name
 
+            # The sanitized name can itself be the raw name of another declared schema ("user_profile" -> "UserProfile"
+            # while "UserProfile" is declared too): that key belongs to the other schema, keep this one under its own name.
+            if registration_key != schema_name and registration_key in context.raw_spec_schemas:
+                registration_key = schema_name
+
             # Check if this is a collision between different raw schemas
             if registration_key in context.parsed_schemas:
                 existing_schema = context.parsed_schemas[registration_key]
